@@ -174,8 +174,16 @@ def run(M, c):
     if wraps or len(set(signs) - {0}) > 1:
         M.cls("arith", c["t"] in (0, DAY - 1), signs, wraps, abs(tot) > DAY)
     M.sample(c)
-    y = t.add(hours=h, minutes=m, seconds=s, microseconds=us)              # contract
-    back = y.subtract(hours=h, minutes=m, seconds=s, microseconds=us)      # contract
+    if c["t"] % 3 == 0:
+        # the documented positional order (hours, minutes, seconds, microseconds)
+        y = t.add(h, m, s, us)                                                 # contract
+        back = y.subtract(h, m, s, us)                                         # contract
+        y2 = t.add(hours=h, minutes=m, seconds=s, microseconds=us)
+        M.check("inverse", tus(y2) == tus(y), "C20/positional-differs-from-keyword", "add(h, m, s, us) differs from the keyword form", start=str(t),
+                amount=c["amt"], positional=str(y), keyword=str(y2))
+    else:
+        y = t.add(hours=h, minutes=m, seconds=s, microseconds=us)              # contract
+        back = y.subtract(hours=h, minutes=m, seconds=s, microseconds=us)      # contract
     M.check("inverse", type(back) is T and tus(back) == c["t"], "C20/inverse", "subtract() does not undo add()", start=str(t),
             amount=c["amt"], mid=str(y), back=str(back))
     # timedelta operators
